@@ -17,6 +17,8 @@
 (*          position (general independence certificate)                    *)
 (*   wit, wpriv  a family of kernel vectors with private coordinates that  *)
 (*          is LARGER than k (counter-witness to |k| = ncols - rank)       *)
+(*   expect the family that the model Gf2Kernel returns on this matrix     *)
+(*          (only on matrices replayed from the model; judged as drift)    *)
 (*                                                                         *)
 (* Strict = the statement of C14.  Witness = a certificate of the harness  *)
 (* is malformed (tool error).  Nothing else is judged (which basis Gauss   *)
@@ -71,6 +73,8 @@ JudgeGauss(i, e, R) ==
   \* size of the family = ncols - rank
   /\ Strict(i, "gauss:count-bounds", Len(e.k) <= e.ncols /\ Len(e.k) + e.nrows >= e.ncols)
   /\ (e.ncols <= RankMax) => Strict(i, "gauss:count", Len(e.k) = e.ncols - Rank(e))
+  \* conformance with the detailed model (which basis, in which order): informational
+  /\ Has(e, "expect") => Drift(i, "gauss:model-result", Sets(e.k) = Sets(e.expect))
   /\ Has(e, "wit") =>
        LET WOk == /\ Len(e.wit) > Len(e.k)
                   /\ \A t \in 1..Len(e.wit) : VecShapeOK(e, e.wit[t])
